@@ -85,15 +85,22 @@ func NewTrace() *Trace { return &Trace{start: time.Now()} }
 func (t *Trace) Now() time.Duration { return time.Since(t.start) }
 
 // Add appends e, stamping Seq/VT/G. Returns the sequence number.
+//
+// The position in the trace is taken first (a few tens of nanoseconds after the caller
+// got here) and the goroutine id - a stack capture, about a microsecond - is filled in
+// afterwards: where two goroutines race to report (a callback entered on one goroutine,
+// another goroutine woken by the first), the slower part must not decide the order.
 func (t *Trace) Add(e Event) int {
 	Progress.Add(1)
-	g := goid()
 	t.mu.Lock()
 	e.Seq = len(t.Events)
 	e.VT = time.Since(t.start)
-	e.G = g
 	t.Events = append(t.Events, e)
 	n := e.Seq
+	t.mu.Unlock()
+	g := goid()
+	t.mu.Lock()
+	t.Events[n].G = g
 	t.mu.Unlock()
 	return n
 }
